@@ -31,6 +31,7 @@ type RunOut struct {
 	PlanRec    []uint32
 	SchedRec   []uint32
 	Infra      string // non-empty: harness/infrastructure problem (exit 2)
+	Unstable   bool   // a task blocked outside the simulator (channel, sleep): the run is not exactly repeatable
 }
 
 func (o *RunOut) count(k string, n int64) {
@@ -200,4 +201,6 @@ func fillStats(o *RunOut, r *simrt.Run) {
 	o.count("psite_preemptions", r.St.PYields)
 	o.count("lock_contended", r.St.LockBlocks)
 	o.count("starved_steps", r.St.StarvedSteps)
+	o.count("fault_fired/task_blocked_outside_simulator", r.St.ExternalBlocks)
+	o.Unstable = r.Unstable
 }
